@@ -1,6 +1,7 @@
 (* C09  Bytes the guest transmits reach the host once, in order. *)
 From Coq Require Import ZArith List Bool.
-From Dmd Require Import Model.Bits Model.Fifo Model.Duart Proofs.FifoProofs Proofs.PortProofs.
+From Dmd Require Import Model.Bits Model.Fifo Model.Mem Model.Duart Proofs.FifoProofs Proofs.PortProofs Proofs.DuartProofs Proofs.DeviceRefine.
+Import ListNotations.
 Open Scope Z_scope.
 
 (* TxRDY set  =>  the holding register is empty: a write made while ready never overwrites an undelivered byte *)
@@ -45,3 +46,26 @@ Theorem C09_loopback_never_reaches_host :
     PInv p' /\ txq p' = txq p /\ rxq p' = rxq p /\ conf p' = conf p /\ mode1 p' = mode1 p.
 Proof. exact (@tx_service_loopback_inv). Qed.
 Print Assumptions C09_loopback_never_reaches_host.
+
+(* ---- the same at the device's register interface (Proofs/DeviceRefine.v) ---- *)
+
+(* over every history of device operations, on either channel (b), in which the writes to that channel's transmit
+   register are made while its status register shows TxRDY and the channel is neither reset (transmitter) nor put in
+   loop-back: the bytes the host's polls of that channel returned, followed by what is still in its pipeline (host
+   queue, shift register, holding register), are exactly the bytes written, in order -- whatever happens meanwhile
+   on the other channel, the mouse inputs and the interrupt logic *)
+Theorem C09_device_tx_exactly_once_in_order :
+  forall (b : bool) (ops : list dop) (d : duart) (W Q : list Z),
+    DInv d -> loopback (port_of b d) = false -> Q ++ tx_pipe (port_of b d) = W ->
+    match dtx_run b ops d W Q with
+    | Some (d', W', Q') => Q' ++ tx_pipe (port_of b d') = W'
+    | None => True
+    end.
+Proof. exact device_tx_exactly_once_in_order. Qed.
+Print Assumptions C09_device_tx_exactly_once_in_order.
+
+(* operations that are not addressed to a channel leave its port -- queues, registers, status -- untouched *)
+Theorem C09_other_channel_untouched :
+  forall (b : bool) (o : dop) (d : duart), chan_op b o d = None -> port_of b (dstep o d) = port_of b d.
+Proof. exact other_channel_untouched. Qed.
+Print Assumptions C09_other_channel_untouched.
